@@ -243,7 +243,7 @@ class Tracer:
 
         def liq_leave(a, kw):
             tr.in_liq -= 1
-            tr.emit('liq_exit', exchange=a[1], symbol=a[2], pos=tr.pos_snapshot(a[1], a[2]), **liq_extra(a))
+            tr.emit('liq_exit', exchange=a[1], symbol=a[2], pos=tr.pos_snapshot(a[1], a[2]), in_match=tr.in_match, **liq_extra(a))
 
         wrap_mod('_check_for_liquidations', liq_enter, liq_leave)
 
